@@ -251,6 +251,12 @@ def check_C05(ctx):
         rep.add("COMPILE", "wcorpus", "the corpus of derived definitions does not compile with the working-tree derive macro: " + msg)
         return "corpus failed to compile"
     u = ctx.universe("default", CORPUS)
+    # derived type information: the alignment unit (MaxSizeOf) and the IS_ZERO_COPY conjunction are macro output too
+    rep.rule("M2", "derived max_size_of = max over align_of::<Self>() and the unit of every field")
+    rep.rule("ZC-CONST", "derived IS_ZERO_COPY = repr(C) flag && IS_ZERO_COPY of every field type")
+    nm2 = rules_align.rule_M2(u, rep)
+    rep.floor("derived zero-copy units checked", nm2, 12)
+    rules_zc.rule_derived_const(u, rep)
     # MODE
     for t in ts:
         if t.crate == "epserde" or t.des_impl is None:
@@ -656,6 +662,8 @@ def check_C16(ctx):
         if not ok:
             rep.add("ASSOC", name, "SerType alias %s normalises to `%s`, expected `%s`" % (name, got, want))
     rep.floor("SerType equalities", m, 6)
+    if ctx.tier == "thorough":
+        generated_corpus(ctx, rep, (), assoc=True)
     return ("The two write-only views are compared with the vector as wire terms and hash recipes (sibling agreement), their SerType is normalised by rustc, "
             "and the iterator length check is extracted as a guard row. Byte equality on concrete contents follows from term equality plus shared leaf writers; it is not separately decided.")
 
@@ -705,6 +713,8 @@ def check_C12(ctx):
     try:
         uu, cname = units_universe(ctx)
         rules_align.rule_M1(uu, rep, cname)
+        rep.rule("M2", "derived max_size_of = max over align_of::<Self>() and the unit of every field (the unit of a derived zero-copy type is at least its native alignment)")
+        rules_align.rule_M2(uu, rep)
     except ExportError as ex:
         rep.add("M1", "universe", "the universe of closed zero-copy types no longer compiles: " + str(ex)[-300:])
     # the result of every align call of a reader is propagated
@@ -725,12 +735,15 @@ def check_C03(ctx):
     n = rules_eps.rule_eps_borrow(u, ts, rep)
     rep.floor("zero-copy eps paths analysed", n, 20)
     rules_eps.rule_align_guard(u, rep)
+    rep.rule("HEAP-SKELETON", "eps readers reserve skeleton vectors for exactly the element count read from the stream")
+    rules_eps.rule_skeleton_capacity(u, rep)      # no floor: a reader built with collect() reserves nothing by hand
     # the guard compares the address with unit(T): the borrowed &T is aligned only if unit(T) >= align_of::<T>()
-    rep.rule("M1", "folded alignment unit of every closed zero-copy type >= its native alignment (rustc layout): the address check of the alignment point then implies an aligned reference")
+    rep.rule("M1 / M2", "folded alignment unit of every closed zero-copy type >= its native alignment (rustc layout); derived units = max over align_of::<Self>() and the field units: the address check of the alignment point then implies an aligned reference")
     try:
         uu, cname = units_universe(ctx)
         nm = rules_align.rule_M1(uu, rep, cname)
         rep.floor("closed zero-copy types folded", nm, 140)
+        rules_align.rule_M2(uu, rep)
     except ExportError as ex:
         msg = "\n".join(l for l in str(ex).splitlines() if l.startswith("error"))[:500]
         rep.add("M1", "universe", "the universe of closed zero-copy types no longer compiles: " + msg)
@@ -785,6 +798,7 @@ def check_C18(ctx):
 def check_C08(ctx):
     rep = ctx.rep
     rep.rule("STORE", "store = create+truncate the destination, one buffered serialize of self, failure propagated")
+    rep.rule("FLUSH-FWD", "the writer wrappers serialize goes through forward flush to the wrapped writer (store relies on the final flush of serialize to push the BufWriter's tail and report its failure)")
     rep.rule("ARG", "each loader hands deserialize_eps the bytes of the backend at its final place inside the MemCase being built")
     rep.rule("FILL", "copying loaders zero-fill [file_len..capacity) after reading the file and before deserializing")
     rep.rule("MAPLEN", "the mmap loader maps the file from offset 0 for exactly metadata().len() bytes")
@@ -805,6 +819,7 @@ def check_C08(ctx):
         rules_loader.rule_capacity(u, sub)
         rules_loader.rule_memcase_shape(u, sub)
         rules_loader.rule_store(u, sub)
+        rules_align.rule_flush_forward(u, sub)
         if config == "default":
             nm = rules_loader.rule_maplen(u, sub)
             sub.floor("mapping length/offset sites in Deserialize::mmap", nm, 2)
@@ -917,6 +932,11 @@ def check_C13(ctx):
                 if not ok:
                     rep.add("BLANKET", meth, "the blanket WriteNoStd::%s calls %s; it must go through std::io::Write::%s" % (meth, std_calls, want), b.loc())
     rep.floor("blanket WriteNoStd methods", nb, 2)
+    rep.rule("FLUSH-FWD", "every WriteNoStd wrapper around another writer forwards flush to it")
+    nfw = rules_align.rule_flush_forward(u, rep)
+    rep.floor("flush-forwarding wrappers", nfw, 2)
+    rep.rule("ENTRY", "Serialize::serialize and serialize_with_schema both end by flushing the backend (a failing flush is reported by either)")
+    rules_schema.rule_entry_points(u, rep)
     return ("Error discipline of the whole serialization side (call-site classification and path check that no observed failure becomes success), who-may-call for the "
             "short-write form, and ownership of aliasing containers. That the accepted bytes form a prefix of the fault-free output is a statement about runs and is not decided.")
 
@@ -939,6 +959,9 @@ def check_C14(ctx):
     rules_loader.rule_err_to_ok(u, rep, DESER_SCOPE, errs=rules_err.DESER_ERRS, exclude_fn=rules_err.takes_slice_cursor)
     k = rules_loader.rule_uninit_exposed(u, rep, DESER_SCOPE)
     rep.floor("set_len sites analysed", k, 1)
+    rep.rule("DOUBLE-CLEANUP", "a reader that drops a written prefix by hand holds no guard value whose Drop impl releases the prefix as well")
+    kd = rules_loader.rule_double_cleanup(u, rep, DESER_SCOPE + ("epserde/src/deser/mod.rs",))
+    rep.floor("functions with manual prefix cleanup", kd, 2)
     nb = 0
     for im in u.impls:
         if im.trait and im.trait.endswith("::ReadNoStd") and im.self_ty[0] == "param":
